@@ -257,7 +257,13 @@ func (r *batcher) Enqueue(op Operation) error {
 	verifPoint("enqueue:counted")
 
 	// put into the buffer
-	return r.buffer.enqueue(op, r.errorOnFullBuffer)
+	if err := r.buffer.enqueue(op, r.errorOnFullBuffer); err != nil {
+		// the operation was not accepted, so its cost must not stay in the target
+		r.incTarget(-int(op.Cost()))
+		return err
+	}
+
+	return nil
 }
 
 // Call this method when your datastore is throwing transient errors. This pauses the processing loop to ensure that you are not flooding
